@@ -167,6 +167,29 @@ mod imp {
                 };
                 match out { Ok(b) => format!("ok {}", hex_or_dash(&b)), Err(e) => show_terr(&e) }
             }
+            // rseq <cfg> <src> <n> <hex>: ONE Deserializer over the input, Box<RawValue>::deserialize called n times on it, a failure is swallowed
+            // and the next call continues on the same Deserializer -> per call `ok:<hex span>` | `err:<code>`, joined by ','
+            "rseq" if f.len() == 5 => {
+                let data = match unhex(f[4]) { Some(d) => d, None => return "BADCASE".into() };
+                let n: usize = f[3].parse().unwrap_or(3);
+                fn drive<'de, R: serde_json::de::Read<'de>>(mut de: serde_json::Deserializer<R>, n: usize) -> String {
+                    let mut out = vec![];
+                    for _ in 0..n {
+                        match <Box<RawValue> as Deserialize>::deserialize(&mut de) {
+                            Ok(r) => out.push(format!("ok:{}", hex_or_dash(r.get().as_bytes()))),
+                            Err(e) => out.push(format!("err:{}", code_name(&e))),
+                        }
+                    }
+                    out.join(",")
+                }
+                if f[2].starts_with('s') {
+                    match std::str::from_utf8(&data) { Ok(t) => drive(serde_json::Deserializer::from_str(t), n), Err(_) => "SKIP".into() }
+                } else if f[2].starts_with('b') {
+                    drive(serde_json::Deserializer::from_slice(&data), n)
+                } else {
+                    drive(serde_json::Deserializer::from_reader(rw::ChunkReader::from_spec(&data, if f[2].len() > 1 { f[2] } else { "r1" })), n)
+                }
+            }
             _ => "BADCASE".into(),
         }
     }
